@@ -62,11 +62,11 @@ def build_plan(tier, nruns=None, seed=0):
             plan.append(("firstuse", t.kind, True))
         nrand = 1000
         pr = random.Random(777 + seed)
-        for i in range(16):
-            plan.append(("cold", None, bool(i % 2)))
+        for i in range(24):
+            plan.append(("cold", None, i % 3 != 0))
         for i in range(6):
             plan.append(("cold-order", pr.randrange(720), False))
-        directed = (("crosssuite", 32), ("sharedvals", 48), ("classchurn", 48))
+        directed = (("crosssuite", 32), ("sharedvals", 48), ("classchurn", 48), ("soak", 6))
     else:
         for rep in range(3):
             for t in tps:
@@ -78,7 +78,8 @@ def build_plan(tier, nruns=None, seed=0):
             plan.append(("cold", None, bool(i % 2)))
         for i in range(720):
             plan.append(("cold-order", i, False))
-        directed = (("crosssuite", 400), ("sharedvals", 600), ("classchurn", 600))
+        directed = (("crosssuite", 400), ("sharedvals", 600), ("classchurn", 600),
+                    ("soak", 320))
     for name, cnt in directed:
         for i in range(cnt):
             plan.append((name, None, i % 4 == 3))
@@ -94,7 +95,7 @@ def build_plan(tier, nruns=None, seed=0):
     def heavy(e):
         if e[0] in ("samekind", "firstuse"):
             return G.BY_KIND[e[1]].cost >= 100
-        return e[0] in ("random-heavy", "cold", "cold-order")
+        return e[0] in ("random-heavy", "cold", "cold-order", "soak")
     first = [e for e in plan if heavy(e)]
     rest = [e for e in plan if not heavy(e)]
     random.Random(424242).shuffle(first)
@@ -127,6 +128,10 @@ def make_spec(server, seed, index, tier, entry):
         spec = g.scn_crosssuite(faults=faults)
     elif scen == "sharedvals":
         spec = g.scn_sharedvals(faults=faults)
+    elif scen == "soak":
+        spec = g.scn_soak(n=300 if not thorough else rng.choice([300, 600, 1100]),
+                          max_cost=12.0 if not thorough else rng.choice([12.0, 12.0, 120.0]),
+                          kinds=[param] if param else None)
     elif scen == "classchurn":
         spec = g.scn_classchurn(faults=faults,
                                 rounds=None if not thorough else rng.randint(6, 14))
@@ -378,6 +383,11 @@ def main():
         sys.stdout.flush()
         return 3
     plan = build_plan(tier, job.get("nruns"), seed)
+    extra = job.get("extra_plan") or {}
+
+    def entry_of(i):
+        e = extra.get(str(i))
+        return tuple(e) if e is not None else plan[i]
     print(json.dumps({"type": "hello", "variant": variant,
                       "hashseed": os.environ.get("PYTHONHASHSEED"),
                       "optimize": sys.flags.optimize,
@@ -400,7 +410,7 @@ def main():
             break
         line = {"type": "run", "index": index}
         try:
-            spec = make_spec(server, seed, index, tier, plan[index])
+            spec = make_spec(server, seed, index, tier, entry_of(index))
             line["scenario"] = spec["scenario"]
             line["focus"] = spec.get("focus")
             line["config"] = spec["config"]
@@ -463,7 +473,7 @@ def main():
         if deadline is not None and time.monotonic() - t_start > deadline:
             break
         try:
-            spec = make_spec(server, seed, index, tier, plan[index])
+            spec = make_spec(server, seed, index, tier, entry_of(index))
             out = execute(server, spec, want_cov=False)
             print(json.dumps({"type": "rerun", "index": index,
                               "records_digest": out.get("records_digest")}))
